@@ -5,7 +5,8 @@ import UberjobModel.Lemmas.TimeCpython
 
 Quantified over: every process time zone `tz` (an arbitrary offset function, DST jumps included) that satisfies
 PEP 495's round-trip contract `TZ.Lawful` (an explicit hypothesis; CPython's own algorithms are shown to satisfy
-it for every one-transition zone, `C18_cpython_lawful`); every datetime representation (naive local with any
+it for every one-transition zone, `C18_cpython_lawful`, and for every transition table with transitions at least a week
+apart, `C18_cpython_lawful_tables`); every datetime representation (naive local with any
 admissible fold bit, aware with any UTC offset) of `fresh_time` and of every store's modified time, missing
 values (`None`) included; every plan shape (`staleFold` over any node list).
 
@@ -85,6 +86,29 @@ theorem C18_max_defined (mt : Int) (anc fresh : Option Int) : (safeMax [some mt,
 theorem C18_cpython_lawful (T a b : Int) (h1 : -day < b - a) (h2 : b - a < day) :
     (TZ.cpython (oneOffset T a b)).Lawful :=
   cpython_one_lawful T a b h1 h2
+
+/-- **... and in every zone with any number of transitions** given as a table (`tableOffset`: the offset before the first
+    transition, then `(instant, offset from there on)` pairs): it suffices that consecutive transitions are at least seven
+    days apart and that offsets and jumps are below 24 h (`Spaced`).  The algorithms probe the offset function only within
+    three days of the instant they are about (`cpyDecode_local`, `cpyFold_local`, `cpyAstimezone_local`), where such a zone
+    is a one-transition zone.  More generally for every offset function that is `LocallyOne`. -/
+theorem C18_cpython_lawful_tables (base : Int) (trs : List (Int × Int)) (hb : -day < base ∧ base < day)
+    (hs : Spaced base trs) : (TZ.table base trs).Lawful :=
+  cpython_table_lawful base trs hb hs
+
+theorem C18_cpython_lawful_local (off : Int → Int) (h : LocallyOne off) : (TZ.cpython off).Lawful :=
+  cpython_local_lawful off h
+
+/-- New York, 2023–2025, six transitions (spring forward in March, fall back in November): `Spaced`, hence lawful. -/
+def newYork : List (Int × Int) :=
+  [(1678604400000000, -4 * hour), (1699164000000000, -5 * hour), (1710054000000000, -4 * hour),
+   (1730613600000000, -5 * hour), (1741503600000000, -4 * hour), (1762063200000000, -5 * hour)]
+theorem C18_newYork_lawful : (TZ.table (-5 * hour) newYork).Lawful :=
+  C18_cpython_lawful_tables _ _ (by decide) (by
+    simp only [Spaced, newYork, List.mem_cons, List.not_mem_nil, or_false, forall_eq_or_imp, forall_eq,
+      false_imp_iff, implies_true, and_true]
+    simp only [day, hour]
+    omega)
 
 theorem C18_fixed_lawful (o : Int) : (TZ.fixed o).Lawful where
   roundTrip i := by show i + o - o = i; omega
